@@ -81,3 +81,51 @@ let sx_of_out (f : 'a -> sx list) (o : 'a out) : sx list =
   | Err _ -> [A "err"]
   | Panic -> [A "panic"]
   | OutOfFuel -> [A "outoffuel"]
+
+(* ---- locations, regions, features, sequences *)
+let rec loc_of_sx (x : sx) : loc =
+  match x with
+  | L [A "B"; p] -> Between (z_of_sx p)
+  | L [A "P"; p] -> Point (z_of_sx p)
+  | L [A "R"; s; e; a; b] -> Ranged (z_of_sx s, z_of_sx e, bool_of_sx a, bool_of_sx b)
+  | L [A "A"; s; e] -> Ambiguous (z_of_sx s, z_of_sx e)
+  | L (A "J" :: ls) -> Joined (List.map loc_of_sx ls)
+  | L (A "O" :: ls) -> Ordered (List.map loc_of_sx ls)
+  | L [A "C"; l] -> Complemented (loc_of_sx l)
+  | _ -> failwith "loc expected"
+let rec sx_of_loc (l : loc) : sx =
+  match l with
+  | Between p -> L [A "B"; sx_of_z p]
+  | Point p -> L [A "P"; sx_of_z p]
+  | Ranged (s, e, a, b) -> L [A "R"; sx_of_z s; sx_of_z e; sx_of_bool a; sx_of_bool b]
+  | Ambiguous (s, e) -> L [A "A"; sx_of_z s; sx_of_z e]
+  | Joined ls -> L (A "J" :: List.map sx_of_loc ls)
+  | Ordered ls -> L (A "O" :: List.map sx_of_loc ls)
+  | Complemented l -> L [A "C"; sx_of_loc l]
+let list_of_sx f = function L xs -> List.map f xs | _ -> failwith "list expected"
+let rec region_of_sx (x : sx) : region =
+  match x with
+  | L [A "G"; h; t] -> Seg (z_of_sx h, z_of_sx t)
+  | L (A "GG" :: rs) -> Regs (List.map region_of_sx rs)
+  | _ -> failwith "region expected"
+let rec sx_of_region (r : region) : sx =
+  match r with
+  | Seg (h, t) -> L [A "G"; sx_of_z h; sx_of_z t]
+  | Regs rs -> L (A "GG" :: List.map sx_of_region rs)
+let feature_of_sx (x : sx) : feature =
+  match x with
+  | L [A "F"; k; l; L ps] ->
+    { fkey = bytes_of_sx k; floc = loc_of_sx l;
+      fprops = List.map (list_of_sx bytes_of_sx) ps }
+  | _ -> failwith "feature expected"
+let sx_of_feature (f : feature) : sx =
+  L [A "F"; sx_of_bytes f.fkey; sx_of_loc f.floc;
+     L (List.map (fun p -> L (List.map sx_of_bytes p)) f.fprops)]
+let seq_of_sx (x : sx) : seq =
+  match x with
+  | L [A "S"; L fs; p] -> { feats = List.map feature_of_sx fs; residues = bytes_of_sx p }
+  | _ -> failwith "seq expected"
+let sx_of_seq (s : seq) : sx =
+  L [A "S"; L (List.map sx_of_feature s.feats); sx_of_bytes s.residues]
+let sx_of_den (d : (z * bool) list) : sx =
+  L (List.map (fun (p, c) -> A ((string_of_int (int_of_z p)) ^ (if c then "-" else "+"))) d)
